@@ -57,9 +57,22 @@ func (w *World) ExportImport() (n *World, err error) {
 // of the state oracle must be the same on both sides; then two more blocks (empty, a day later) on
 // the new chain, judged by the state and transition oracles like any block.
 
-var genesisRTProps = map[string]bool{"C01": true, "C02": true, "C06": true, "C08": true, "C09": true, "C11": true, "C12": true, "C13": true, "C15": true}
+var genesisRTProps = map[string]bool{"C01": true, "C02": true, "C06": true, "C08": true, "C09": true, "C11": true, "C12": true, "C13": true, "C15": true, "C10": true, "C20": true}
 
 var genesisRTFollow = []string{"empty", "gap_1d"}
+
+// properties judged by TRANSITION oracles get follow-up blocks that exercise them on the new chain
+var genesisRTFollowFor = map[string][]string{
+	"C20": {"ts_spot_limitbuy_met_own2", "ts_perp_long_met_own2", "ts_cancel_all_by_own2", "ts_cancel_all_by_own1"},
+	"C10": {"empty", "perp_bot_close_all", "llp_bot_close_all", "gap_1d"},
+}
+
+func grtFollow(prop string) []string {
+	if f, ok := genesisRTFollowFor[prop]; ok {
+		return f
+	}
+	return genesisRTFollow
+}
 
 type grtUnit struct {
 	Prop string `json:"prop"`
@@ -73,7 +86,7 @@ func (u grtUnit) trace() []string {
 		t = append(t, u.Op)
 	}
 	t = append(t, ExportImportOp)
-	return append(t, genesisRTFollow...)
+	return append(t, grtFollow(u.Prop)...)
 }
 
 func grtUnits(prop, tier string) []interface{} {
@@ -185,7 +198,7 @@ func genesisRTAll(prop, tier string, budget time.Duration) (sum *KSummary, vios 
 // RunGenesisRT is a development probe: root + ops, then export/import, then every state oracle of prop on both worlds.
 func RunGenesisRT(prop, root string, ops []string) int {
 	cfg := WConfig(prop, "quick")
-	fs, err := replayLinearFrom(cfg, root, append(append(append([]string{}, ops...), ExportImportOp), genesisRTFollow...), len(ops))
+	fs, err := replayLinearFrom(cfg, root, append(append(append([]string{}, ops...), ExportImportOp), grtFollow(prop)...), len(ops))
 	fmt.Println("err:", err)
 	for _, f := range fs {
 		fmt.Printf("FINDING %s culprit=%s %s: %s\n", f.Clause, f.Culprit, f.Disc, f.Detail)
